@@ -289,7 +289,28 @@ Module InBlockExamples.
   Qed.
   Example bad_plain_result : scan_result cfg_all dstate0 bad_plain = Err E_PLAIN.
   Proof. vm_compute. reflexivity. Qed.
+  (* "never inherits": a block WITHOUT a string table decoded by a worker that has just decoded a
+     block WITH one (state st1) still fails: the stale table is not consulted *)
+  Definition good_block : msg :=
+    [table; (2, WMsg [(3, WMsg [(1, WVar 7); (2, WPacked [1]); (3, WPacked [2]); (8, WPacked [2])])])].
+  Definition no_table_block : msg :=
+    [(2, WMsg [(3, WMsg [(1, WVar 8); (2, WPacked [1]); (3, WPacked [2]); (8, WPacked [2])])])].
+  Example stale_table_not_used :
+    match scan_block cfg_all dstate0 good_block with
+    | Ok (st1, q) => length q = 1%nat /\ scan_result cfg_all st1 no_table_block = Err E_INDEX
+    | _ => False
+    end.
+  Proof. vm_compute. split; reflexivity. Qed.
 End InBlockExamples.
+
+Theorem C06_stringtable_removed_is_err : forall c m g w k ks vs,
+  has_field 1 m = false ->
+  In (2, Verif.Pbf.Tree.WMsg g) m -> In (3, Verif.Pbf.Tree.WMsg w) g ->
+  Verif.Pbf.Model.skip_ways c = false ->
+  col 2 w = Some (k :: ks) -> col 3 w = Some vs ->
+  forall st, exists e, Verif.Pbf.Model.scan_result c st m = Verif.Pbf.Tree.Err e.
+Proof. exact stringtable_removed_way_is_err. Qed.
+Print Assumptions C06_stringtable_removed_is_err.
 
 (* byte level: a two-block file of 20 bytes, cut after the second block's prefix *)
 Module BytesExample.
